@@ -27,7 +27,11 @@ func (l lost) key() string {
 		if l.Off >= 256 {
 			off = "256+"
 		}
-		return fmt.Sprintf("lost-bits/%s/v%d/+%s", l.Type, l.Ver, off)
+		ver := fmt.Sprint(l.Ver)
+		if l.Off == 0 {
+			ver = "*" // the differing byte is the version byte itself
+		}
+		return fmt.Sprintf("lost-bits/%s/v%s/+%s", l.Type, ver, off)
 	default:
 		return "lost-" + l.Kind + "/" + l.Type
 	}
